@@ -400,7 +400,11 @@ func (e *Engine) Run(t *core.Tape, cfg *core.Config, st *core.Stats) *core.Viola
 	var srcName string
 	var pinned *corpusEntry
 	valid := false // known to be a valid program
-	switch k := t.Weighted([]int{4, 4, 3, 1, 1}); k {
+	switch k := t.Weighted([]int{4, 4, 3, 1, 1, 3}); k {
+	case 5: // grammatical programs that hit the compiler's own error paths (goto/label/break/vararg/limit checks) in random nesting contexts
+		src = compileEdgeProgram(t)
+		srcName = "compile-edge"
+		st.Probe("compile_edge_program")
 	case 0: // generated SimLua program
 		p := ir.Generate(t, ir.ProfileFor("stream"))
 		src = ir.Render(p, ir.DrawLayout(t)).Source
@@ -586,4 +590,102 @@ func (e *Engine) Run(t *core.Tape, cfg *core.Config, st *core.Stats) *core.Viola
 		st.Sample(map[string]interface{}{"source": srcName, "mutation": mutDesc, "bytes": len(src), "verdict": base.class, "head": firstN(src, 120)})
 	}
 	return nil
+}
+
+
+// compileEdgeProgram wraps a payload that exercises a compile-time check in a
+// random nesting of blocks and functions with a random number of surrounding
+// locals and parameters. Whether the result is accepted is not judged here,
+// only that loading ends in a function or a syntax/compile error.
+func compileEdgeProgram(t *core.Tape) string {
+	payloads := []string{
+		"goto L%d\nlocal x%d = 1\n::L%d::\nprint(x%d)",
+		"goto L%d\nlocal x%d = 1\n::L%d::",
+		"do goto L%d end\nlocal y%d = 2\n::L%d:: y%d = 3",
+		"goto nolabel%d",
+		"::a%d:: ::a%d::",
+		"::a%d:: do ::a%d:: end",
+		"break",
+		"local f%d = function() break end",
+		"local f%d = function() return ... end",
+		"local f%d = function(...) local g = function() return ... end return g end",
+		"for i = 1, 3 do local v%d = i if i == 2 then goto cont%d end v%d = v%d + 1 ::cont%d:: end",
+		"repeat local z%d = 1 if z%d then break end until z%d",
+		"do local a%d <const> = 1 end",
+		"::top%d:: local q%d = 1 if q%d then goto top%d end",
+		"goto f%d local function f%d() end ::f%d::",
+		"while true do goto out%d end ::out%d::",
+		"return",
+		"return 1, 2",
+	}
+	n := t.Choose(len(payloads) + 3)
+	var payload string
+	id := t.Choose(5)
+	switch {
+	case n < len(payloads):
+		payload = strings.ReplaceAll(payloads[n], "%d", fmt.Sprint(id))
+	case n == len(payloads): // too many locals
+		var sb strings.Builder
+		cnt := 190 + t.Choose(30)
+		for i := 0; i < cnt; i++ {
+			fmt.Fprintf(&sb, "local l%d = %d\n", i, i)
+		}
+		payload = sb.String()
+	case n == len(payloads)+1: // a call with very many arguments (register pressure)
+		var args []string
+		cnt := 200 + t.Choose(100)
+		for i := 0; i < cnt; i++ {
+			args = append(args, fmt.Sprint(i))
+		}
+		payload = "print(" + strings.Join(args, ", ") + ")"
+	default: // deeply nested expression
+		depth := 50 + t.Choose(200)
+		payload = "local e = " + strings.Repeat("(1 + ", depth) + "1" + strings.Repeat(")", depth)
+	}
+	// nesting context
+	var pre, post []string
+	depth := t.Choose(5)
+	lid := 0
+	for d := 0; d < depth; d++ {
+		nl := t.Choose(6)
+		for i := 0; i < nl; i++ {
+			lid++
+			pre = append(pre, fmt.Sprintf("local c%d = %d", lid, lid))
+		}
+		switch t.Choose(6) {
+		case 0:
+			pre = append(pre, "do")
+			post = append([]string{"end"}, post...)
+		case 1:
+			pre = append(pre, "while c0 do")
+			post = append([]string{"end"}, post...)
+		case 2:
+			pre = append(pre, "if c0 then")
+			post = append([]string{"end"}, post...)
+		case 3:
+			np := t.Choose(5)
+			var ps []string
+			for i := 0; i < np; i++ {
+				ps = append(ps, fmt.Sprintf("p%d_%d", d, i))
+			}
+			pre = append(pre, fmt.Sprintf("local function fn%d(%s)", d, strings.Join(ps, ", ")))
+			post = append([]string{"end"}, post...)
+		case 4:
+			pre = append(pre, fmt.Sprintf("for i%d = 1, 2 do", d))
+			post = append([]string{"end"}, post...)
+		case 5:
+			pre = append(pre, "repeat")
+			post = append([]string{"until c0"}, post...)
+		}
+	}
+	nl := t.Choose(6)
+	for i := 0; i < nl; i++ {
+		lid++
+		pre = append(pre, fmt.Sprintf("local c%d = %d", lid, lid))
+	}
+	var tail []string
+	if t.Choose(2) == 0 {
+		tail = append(tail, "c0 = 1")
+	}
+	return "local c0 = 0\n" + strings.Join(pre, "\n") + "\n" + payload + "\n" + strings.Join(tail, "\n") + "\n" + strings.Join(post, "\n") + "\n"
 }
